@@ -55,8 +55,10 @@ def run_trees(ctx, per_case, *, depth=(1, 4), arbitrary=False, hostile_p=0.3, cl
     n = int(n * scale)
     rnd = ctx.rnd
     closure: list = []
+    t_start = ctx.elapsed()
+    secs = secs * min(1.0, max(0.3, scale * 2))
     for i in range(n):
-        if ctx.elapsed() > secs:
+        if ctx.elapsed() - t_start > secs:
             ctx.extra["stopped_by_time_budget_after_cases"] = i
             break
         pool = W.version_pool(rnd)
